@@ -854,6 +854,35 @@ func (e *Exec) invoke(st *State, recv *IfaceV, m *types.Func, args []Value, cc *
 				e.refuse("no contract for interface method %s", key)
 			}
 			e.Externs[key] = true
+			// call-site requirements "at <Iface>.<Method>: requires ..." of the
+			// function under verification
+			if e.Spec != nil && e.Spec.SiteReqs != nil && e.dry == 0 {
+				short := key[strings.LastIndex(key, "/")+1:] // pkg.Iface.Method
+				if i := strings.Index(short, "."); i >= 0 {
+					short = short[i+1:] // Iface.Method
+				}
+				if reqs, ok := e.Spec.SiteReqs[short]; ok {
+					vars := map[string]specVar{}
+					for _, p := range e.Fn.Params {
+						p := p
+						vars[p.Name()] = func(s *State) Value { return e.paramValue(s, p) }
+					}
+					for i, n := range e.Spec.Params {
+						if i < len(e.Fn.Params) {
+							p := e.Fn.Params[i]
+							vars[n] = func(s *State) Value { return e.paramValue(s, p) }
+						}
+					}
+					for i, a := range args {
+						a := a
+						vars[fmt.Sprintf("arg%d", i)] = func(*State) Value { return a }
+					}
+					for _, rq := range reqs {
+						t := e.evalSpecBool(rq, vars, bs, e.entry, "at "+short+" requires")
+						e.oblige(bs, "site", short+": "+clauseLabel(rq), t, pos)
+					}
+				}
+			}
 			v = e.applyContract(bs, spec, sig, nil, append([]Value{&IfaceV{Typ: recv.Typ, Alts: []IfaceAlt{{Cond: c.True(), Tag: al.Tag, Opaque: al.Opaque}}}}, args...), key, pos)
 		}
 		brs = append(brs, branch{al.Cond, bs, v})
@@ -972,46 +1001,57 @@ func (e *Exec) lookupType(s string) types.Type {
 // the earlier of the two.
 func (e *Exec) selectOp(st *State, x *ssa.Select) Value {
 	c := e.C
-	if !x.Blocking || len(x.States) != 2 {
-		e.refuse("select: only a blocking two-way receive is modelled")
+	if !x.Blocking || len(x.States) == 0 {
+		e.refuse("select: only a blocking receive on timers / context is modelled")
 	}
-	doneIdx, timerIdx := -1, -1
-	var d *smt.Term
-	for i, s := range x.States {
+	// Ghost clock: every case becomes ready at an instant -- a timer
+	// time.After(d) at now+d (at once for d <= 0), <-ctx.Done() at the deadline
+	// of the context created by context.WithTimeout.  A blocking select returns
+	// with a case whose instant is the earliest, at that instant (or now if it
+	// has already passed).
+	now, ok := st.ghost["now"].(Scalar)
+	if !ok {
+		e.refuse("select: ghost clock not initialised (declare `ghost now = 0` in the contract)")
+	}
+	var ready []*smt.Term
+	for _, s := range x.States {
+		if s.Dir != types.RecvOnly {
+			e.refuse("select: send cases are not modelled")
+		}
 		ch, ok := e.eval(st, s.Chan).(Scalar)
 		if !ok || ch.T.Op != "app" {
 			e.refuse("select on an unknown channel")
 		}
 		switch ch.T.Name {
 		case "ctx_done":
-			doneIdx = i
+			dl, ok := st.ghost["ctxdeadline"].(Scalar)
+			if !ok {
+				e.refuse("select: <-ctx.Done() of a context without a modelled deadline")
+			}
+			ready = append(ready, dl.T)
 		case "timer_after":
-			timerIdx = i
-			d = ch.T.Args[0]
+			d := ch.T.Args[0]
+			ready = append(ready, c.Ite(c.BVSlt(bv64(c, 0), d), c.BVAdd(now.T, d), now.T))
+		default:
+			e.refuse("select on an unknown channel")
 		}
 	}
-	if doneIdx < 0 || timerIdx < 0 {
-		e.refuse("select: expected <-ctx.Done() and <-time.After(d)")
-	}
-	e.Externs["ghost clock: time.After(d) fires d after the select starts, ctx.Done() is ready from the context deadline on, a blocking select returns at the earlier instant (assumed)"] = true
-	now, ok1 := st.ghost["now"].(Scalar)
-	dl, ok2 := st.ghost["deadline"].(Scalar)
-	if !ok1 || !ok2 {
-		e.refuse("select: ghost clock not initialised (context.WithTimeout not seen)")
-	}
+	e.Externs["ghost clock: time.After(d) fires d after the select starts, ctx.Done() is ready from the context deadline on, a blocking select returns with an earliest case at that instant (assumed)"] = true
 	idx := c.Fresh("select_idx", smt.BV(64))
-	isDone := c.Eq(idx, bv64(c, int64(doneIdx)))
-	isTimer := c.Eq(idx, bv64(c, int64(timerIdx)))
-	fire := c.BVAdd(now.T, d)
-	pos := c.BVSlt(bv64(c, 0), d)
-	e.assume(st, c.Or(isDone, isTimer))
-	// d > 0: timer only if it fires no later than the deadline; done only if the deadline is no later than the timer
-	e.assume(st, c.Implies(c.And(pos, isTimer), c.BVSle(fire, dl.T)))
-	e.assume(st, c.Implies(c.And(pos, isDone), c.BVSle(dl.T, fire)))
-	// d <= 0: the timer is ready at once; done only if the deadline has passed
-	e.assume(st, c.Implies(c.And(c.Not(pos), isDone), c.BVSle(dl.T, now.T)))
-	later := c.Ite(c.BVSlt(now.T, dl.T), dl.T, now.T)
-	newNow := c.Ite(isTimer, c.Ite(pos, fire, now.T), later)
+	var chosen *smt.Term = ready[len(ready)-1]
+	inRange := c.False()
+	for i := len(ready) - 1; i >= 0; i-- {
+		is := c.Eq(idx, bv64(c, int64(i)))
+		inRange = c.Or(inRange, is)
+		if i < len(ready)-1 {
+			chosen = c.Ite(is, ready[i], chosen)
+		}
+	}
+	e.assume(st, inRange)
+	for _, r := range ready {
+		e.assume(st, c.BVSle(chosen, r))
+	}
+	newNow := c.Ite(c.BVSlt(now.T, chosen), chosen, now.T)
 	ng := map[string]Value{}
 	for k, v := range st.ghost {
 		ng[k] = v
